@@ -120,8 +120,8 @@ func RunHarnesses(l *Loaded, fns []*ssa.Function, cfg RunConfig) (map[string]*Ha
 		p.jobs = append(p.jobs, Job{Fn: fns[i]})
 	}
 	nw := cfg.Workers
-	if nw > len(fns)*4 {
-		nw = len(fns) * 4
+	if nw > len(fns)*16 {
+		nw = len(fns) * 16
 	}
 	if nw < 1 {
 		nw = 1
